@@ -437,7 +437,21 @@ def _emit_fn(out, spec, repo, canary):
     if kw.get("rename"):
         sig = re.sub(r"\bfn\s+%s\b" % re.escape(f.name), "fn " + kw["rename"].split("::")[-1], sig, count=1)
 
-    body, hits = apply_rules(f.body, spec["rules"])
+    fbody = f.body
+    if re.search(r"\(\s*mut\s+self\b", sig):
+        # R14: `mut self` receiver (unsupported by Verus): take `self` by value and move it into a mutable local
+        sig = re.sub(r"\(\s*mut\s+self\b", "(self", sig, count=1)
+        sb = Src(fbody)
+        outp, last = [], 0
+        for q in range(len(sb)):
+            if sb.txt(q) == "self" and sb.kind(q) == "ident":
+                outp.append(fbody[last:sb.start(q)])
+                outp.append("vx_self")
+                last = sb.end(q)
+        outp.append(fbody[last:])
+        fbody = "\n        let mut vx_self = self;" + "".join(outp)
+        out.rule_hits["R14"] = out.rule_hits.get("R14", 0) + 1
+    body, hits = apply_rules(fbody, spec["rules"])
     for k, v in hits.items():
         out.rule_hits[k] = out.rule_hits.get(k, 0) + v
 
